@@ -190,6 +190,9 @@ func (g *Gen) probe(field string) Probe {
 		case 2:
 			return Probe{T: "struct"}
 		case 3:
+			if r.Intn(2) == 0 {
+				return Probe{T: "nstring", S: hexs("a")} // a named string type is not a string key
+			}
 			return Probe{T: "string", S: hexs("a")}
 		case 4:
 			return Probe{T: "int", I: 1}
@@ -388,7 +391,9 @@ func (g *Gen) add(op Op) {
 		if op.Alt == 0 {
 			op.Alt = g.alt.Intn(2)
 		}
-	case "sdel", "delall", "many", "bulk":
+	case "bulk":
+		op.Alt = g.alt.Intn(3)
+	case "sdel", "delall", "many":
 		op.Alt = g.alt.Intn(2)
 	}
 	g.ops = append(g.ops, op)
@@ -498,7 +503,21 @@ func asyncHistory(p *Profile, seed int64) []Op {
 				g.add(Op{Op: "del", K: 1 + r.Intn(6)}) // possibly while its write is pending
 			}
 		}
-		switch r.Intn(9) {
+		switch r.Intn(10) {
+		case 9:
+			// settings made tight on the live handle: the flusher must pick them up
+			g.add(Op{Op: "flushall"})
+			g.add(Op{Op: "create", Cons: g.cons, Ext: ".json", Cache: r.Intn(2) == 0, AThr: 1 << 30, AMs: 3600 * 1000})
+			g.add(Op{Op: "sleep", Ms: 250})
+			g.add(Op{Op: "tick", N: 2})
+			g.add(Op{Op: "create", Cons: g.cons, Ext: ".json", Cache: r.Intn(2) == 0, AThr: thr, AMs: ms})
+			for i := 0; i < thr && i < 6; i++ {
+				sp := g.spec(1 + i)
+				g.usedK[1+i] = true
+				g.add(Op{Op: "ins", Spec: &sp})
+			}
+			quiesce()
+			observe()
 		case 8:
 			// objects flushed without commit, then a flush-and-commit with nothing pending: the
 			// schema must be committed all the same
@@ -848,6 +867,22 @@ func History(p *Profile, seed int64) []Op {
 			g.add(Op{Op: "get", K: k1})
 			g.add(Op{Op: "getu", K: k2})
 			g.add(Op{Op: "all"})
+		case "emptyrx":
+			// a pattern search that matches everything (the empty pattern), evaluated, then the
+			// collection moves, then it is collected: it is a snapshot like any other
+			f := []string{"S", "Emb.Z", "P.W"}[r.Intn(3)]
+			g.nextSid++
+			sid := g.nextSid
+			g.sids = append(g.sids, sid)
+			pr := Probe{T: "string", S: hexs("")}
+			g.add(Op{Op: "search", Sid: sid, Field: f, Cmp: "~=", Probe: &pr})
+			g.add(Op{Op: "del", K: g.pickK(0)})
+			sp := g.spec(g.pickK(90))
+			g.add(Op{Op: "ins", Spec: &sp})
+			sp2 := g.spec(g.pickK(90))
+			g.add(Op{Op: "ins", Spec: &sp2})
+			g.add(Op{Op: "collect", Sid: sid})
+			g.add(Op{Op: "control"})
 		case "orabsent":
 			// a union whose second term matches nothing, on a unique field when there is one; then
 			// the index moves; then the union is collected
@@ -1085,7 +1120,7 @@ var profiles = map[string]*Profile{
 	// C20: a search is a snapshot: writes between evaluation and collection
 	"snapshot": {Name: "snapshot", Len: [2]int{20, 60}, MaxK: 16, PIndex: 60, PUnique: 3, PUpper: 5, PLower: 5,
 		PCache: 40, PAsync: 20, PGz: 5, PLowerDir: 5, PExt: 5, SweepEvery: 0, NoHostile: true,
-		Weights: map[string]int{"ins": 40, "many": 6, "del": 14, "sdel": 3, "search": 14, "refine": 8, "collect": 22, "recreatec": 3, "delall": 2, "oidreuse": 4, "orabsent": 4}},
+		Weights: map[string]int{"ins": 40, "many": 6, "del": 14, "sdel": 3, "search": 14, "refine": 8, "collect": 22, "recreatec": 3, "delall": 2, "oidreuse": 4, "orabsent": 4, "emptyrx": 3}},
 	// C17: schema guard, re-creation, settings switches
 	"guard": {Name: "guard", Shadow: true, Len: [2]int{10, 30}, MaxK: 8, PIndex: 35, PUnique: 10, PUpper: 15, PLower: 15,
 		PCache: 50, PAsync: 50, PGz: 20, PLowerDir: 10, PExt: 30, SweepEvery: 5, NoHostile: true,
